@@ -30,6 +30,60 @@ func runC17(c *core.Ctx) {
 	c.Rule("R17.2", "skip path reads what the process path reads; no end-marker aliasing")
 	c.Rule("R17.3", "whitelist consulted after the header check")
 	c.Rule("R17.4", "series kind is set from the current header before skipping")
+	c.Rule("R17.5", "the whitelist kept is the caller's, values included")
+	{
+		nSt := 0
+		for _, fn := range c.P.SrcFuncs() {
+			if !strings.HasSuffix(core.PkgPathOf(fn), "/pwr/patcher") {
+				continue
+			}
+			core.Instrs(fn, func(in ssa.Instruction) {
+				st, ok := in.(*ssa.Store)
+				if !ok {
+					return
+				}
+				if _, n, ok := core.FieldOf(st.Addr); !ok || n != "sourceIndexWhiteList" {
+					return
+				}
+				nSt++
+				okAll := true
+				for _, o := range core.Origins(st.Val) {
+					switch x := o.(type) {
+					case *ssa.Parameter:
+					case *ssa.Const:
+					case *ssa.MakeMap:
+						// a copy: every value put into it comes out of the caller's map
+						if refs := x.Referrers(); refs != nil {
+							for _, r := range *refs {
+								mu, ok := r.(*ssa.MapUpdate)
+								if !ok || mu.Map != ssa.Value(x) {
+									continue
+								}
+								fromSrc := false
+								for _, vo := range core.Origins(mu.Value) {
+									switch y := vo.(type) {
+									case *ssa.Extract: // value of a range over a map, or v, ok := m[k]
+										fromSrc = true
+										_ = y
+									case *ssa.Lookup:
+										fromSrc = true
+									}
+								}
+								if !fromSrc {
+									okAll = false
+								}
+							}
+						}
+					default:
+						okAll = false
+					}
+				}
+				c.Check(okAll, "R17.5", core.FnName(fn), "the whitelist stored is the caller's map or a copy with its values", core.InstrPos(in),
+					"parameter, nil, or a map filled with values read from the source map", "the whitelist the patcher keeps is not the caller's: a copy that does not take its values from the caller's map (every key present becomes selected), or something else entirely")
+			})
+		}
+		c.Floor("R17.5", "assignments of the whitelist", nSt, 1)
+	}
 	resume := c.P.Fn("pwr/patcher", "savingPatcher.Resume")
 	skip := c.P.Fn("pwr/patcher", "savingPatcher.skipFile")
 	process := c.P.Fn("pwr/patcher", "savingPatcher.processFile")
